@@ -78,7 +78,12 @@ def _row_into(rng, m, targets):
 
 
 def make_instance(rng, style):
-    """Returns (m, info).  Styles: clean, plan, const, absinit, ghost, zeros_out."""
+    """Returns m.  Styles: clean, plan, const, absinit, ghost, zeros_out, rare.
+
+    rare: probabilities over a denominator of 10^8 / 10^9, with rows (and initial distributions) that put a
+    weight of 1 (or 10) next to an ordinary one, i.e. entries of 1e-9 / 1e-8: tiny but positive, so they are
+    successors, cells of the arrays and (possibly the only) way to reach a state.  Rewards are bounded so that
+    every sum T*R the spec forms stays below 2^30; the planning clause is not evaluated on this family."""
     rewards = (-2, -1, 0, 1, 2)
     while True:
         if style == "plan":
@@ -92,6 +97,10 @@ def make_instance(rng, style):
         if style in ("absinit", "ghost") and n_abs == 0:
             n_abs = 1
         ID = rng.choice([2, 4, 3])
+        if style == "rare":
+            PD = rng.choice([10 ** 8, 10 ** 9])
+            ID = PD
+            rewards = (-2, -1, 0, 1, 2) if PD == 10 ** 8 else (-1, 0, 1)     # |sum T*R| <= 2e8 resp. 1e9 < 2^30
         m = gen.rand_mdp(rng, n_na=n_na, n_abs=n_abs, K=K, PD=PD, GN=GN, GD=GD, rewards=rewards, ID=ID,
                          uniform_actions=(style == "const" and rng.random() < 0.8), p_implicit=0.15,
                          init_on_abs=0.3)
@@ -99,8 +108,28 @@ def make_instance(rng, style):
         if style in ("absinit", "ghost", "zeros_out"):
             explicit = 1 if rng.random() < 0.15 else 0
         N, K = m["N"], m["K"]
+        if style == "rare":
+            tiny = [1] if PD == 10 ** 8 else [1, 1, 10]                     # 1e-8 resp. 1e-9, 1e-8
+            nonzero = [r for r in rewards if r != 0]
+
+            def tiny_row(n):
+                cells = rng.sample(range(n), min(n, rng.choice([2, 2, 3])))
+                row = [0] * n
+                for c in cells[1:]:
+                    row[c] = rng.choice(tiny)
+                row[cells[0]] = PD - sum(row)
+                return row, cells[1:]
+            if N >= 2:
+                for s in range(N):
+                    for a in range(K):
+                        if rng.random() < 0.6:
+                            m["P"][s][a], small = tiny_row(N)
+                            for t in small:                                  # the tiny entry carries a visible reward
+                                m["R"][s][a][t] = rng.choice(nonzero)
+                if rng.random() < 0.6:
+                    m["p0"], _ = tiny_row(N)
         # dead ends (no action at all)
-        if style in ("clean", "ghost", "zeros_out", "absinit") and rng.random() < 0.3:
+        if style in ("clean", "ghost", "zeros_out", "absinit", "rare") and rng.random() < 0.3:
             s = rng.randrange(N)
             m["avail"][s] = [0] * K
         if style == "const":
@@ -201,7 +230,8 @@ def make_instance(rng, style):
 # label kinds of the harness plus "collide": state labels that are tuples built from other state / action labels
 # (singletons (s,), pairs (s, a), triples (s, a, s')), so that a state label can be mistaken for a multi-field key
 STATE_LABEL_KINDS = LABEL_KINDS + ["collide", "collide"]
-STYLES = ["clean"] * 6 + ["plan"] * 4 + ["const"] * 3 + ["absinit"] * 2 + ["ghost"] * 2 + ["zeros_out"] * 2
+STYLES = (["clean"] * 6 + ["plan"] * 4 + ["const"] * 3 + ["absinit"] * 2 + ["ghost"] * 2 + ["zeros_out"] * 2
+          + ["rare"] * 3)
 
 
 def make_cases(rng, n):
